@@ -3,6 +3,8 @@
 (* Trace validation for C06.  trace.ndjson has one line per (scene,        *)
 (* container):                                                             *)
 (*   {"k":"doc","c":case,"tag":..,"kind":"glb"|"text","src":{..},"out":{..}}*)
+(* (kind "glb-again" / "text-again": the same scene OBJECTS had been written *)
+(* once before; src is the scene as built, out the SECOND file)            *)
 (* src = the scene the harness handed to gltf.WriteBinary / WriteText,     *)
 (* out = what an independent reader found in the bytes that came back.     *)
 (* The harness only executes and projects; every judgement is made here by *)
@@ -69,7 +71,8 @@ Contents(o, src) ==
             \cup (IF lshape THEN B(\A k \in DOMAIN ln : LightOK(o, ln[k], src.lights[k]), "C06.Lights") ELSE {})
             \cup B(TextureOnce(o), "C06.TextureOnce")
             \cup B(NoOrphans(o), "C06.NoOrphans")
-            \cup B(SourcesExact(src), "Harness.InexactSource"),
+            \cup B(SourcesExact(src), "Harness.InexactSource")
+            \cup B(\A sm \in Ran(src.meshes) : NnfConsistent(sm), "Harness.NonFiniteCount"),
          det |-> IF shape THEN UNION {ModelDet(o, src, mn[k], lv[k]) : k \in DOMAIN lv} ELSE {}]
 
 (* ---------------- layers 1-3: structure -------------------------------- *)
@@ -86,15 +89,17 @@ Structure(o) ==
     \* every byte every accessor names is present: the harness must have decoded all of them
     LET hz == B(\A a \in Ran(o.accs) : (a.view # -1 => a.dec) /\ SumConsistent(a), "Harness.Decode")
         mis == Misaligned(o)
+        mm == IF hz = {} THEN {a \in Ran(o.accs) : ~MinMaxOK(a)} ELSE {}
         l4 == l3 \cup hz
               \cup B(mis = {}, "C06.Aligned")
-              \cup B(\A a \in Ran(o.accs) : MinMaxOK(a), "C06.MinMax")
+              \cup B(mm = {}, "C06.MinMax")
               \cup B(PositionBounded(o), "C06.PositionBounds")
               \cup B(CountsOK(o), "C06.AttrCounts")
               \cup B(IndicesOK(o), "C06.IndexValues")
               \cup B(ExtDeclared(o), "C06.ExtDeclared")
     IN [bad |-> l4,
         det |-> {"Aligned:" \o MisalignCause(o, i) : i \in mis}
+                \cup {"MinMax:" \o MinMaxCause(a) : a \in mm}
                 \cup {IF p.attrs = <<>> THEN "IndexValues:primitive-without-attributes"
                        ELSE IF At0(o.accs, p.idx).dec /\ DecMax(At0(o.accs, p.idx), 1) = Restart(At0(o.accs, p.idx).comp)
                             THEN "IndexValues:primitive-restart-value"
@@ -104,13 +109,31 @@ Structure(o) ==
 
 Judge(ln) ==
     LET o == ln.out  src == ln.src IN
-    IF o.status # "OK" THEN [bad |-> {"C06.Written"}, det |-> {"Written:" \o o.status}]
+    \* FAIL = the writer returned an error (no file): allowed only for a scene no glTF document
+    \* can carry (NaN / +-Inf); PANIC and TIMEOUT never are
+    IF o.status = "FAIL" /\ SrcNonFinite(src) THEN [bad |-> {}, det |-> {}]
+    ELSE IF o.status # "OK" THEN [bad |-> {"C06.Written"}, det |-> {"Written:" \o o.status}]
     ELSE LET s == Structure(o) IN
          IF ~s.sound THEN [bad |-> s.bad, det |-> s.det]
          ELSE LET c == Contents(o, src) IN [bad |-> s.bad \cup c.bad, det |-> s.det \cup c.det]
 
 (* ---------------- vacuity accounting ----------------------------------- *)
 T(c, name) == IF c THEN {name} ELSE {}
+\* per stored float accessor: which special values are physically in the payload
+StoredTags(a) ==
+    LET nc == NumComp(a.type)
+        ty == IF nc = 2 THEN "vec2" ELSE IF nc = 3 THEN "vec3" ELSE IF nc = 4 THEN "vec4" ELSE "other"
+        all == IF a.full THEN UNION {Ran(a.vals[i]) : i \in DOMAIN a.vals}
+               ELSE UNION {{a.sum.min[c], a.sum.max[c]} : c \in {d \in 1..nc : a.sum.nan[d] < a.count}}
+    IN  T(HasNaN(a), "nan-stored-" \o ty)
+        \cup T(HasNaN(a) /\ ~a.full, "nan-stored-big")
+        \cup T(HasNaN(a) /\ (a.hasMin \/ a.hasMax) /\ \E c \in 1..nc : ~HasVal(a, c), "minmax-all-nan-component")
+        \cup T(HasNaN(a) /\ HasClean(a) /\ MinMaxOK(a) /\ a.hasMin, "minmax-with-nan-judged")
+        \cup T(\E v \in all : v = PosInf \/ v = NegInf, "inf-stored")
+        \cup T(-2147483647 - 1 \in all, "negative-zero-stored")
+        \cup T(\E v \in all : (v > 0 /\ v < 8388608) \/ (v < -2139095040 /\ v > -2147483647 - 1), "subnormal-stored")
+        \cup T(2139095039 \in all \/ -8388609 \in all, "max-float32-stored")
+
 Exercised(ln) ==
     LET o == ln.out  src == ln.src  lv == Live(src) IN
     T(TRUE, ln.kind)
@@ -149,6 +172,11 @@ Exercised(ln) ==
     \cup T(o.cont.kind = "glb" /\ o.cont.binLen # -1 /\ o.buffers # <<>> /\ o.buffers[1].payload > o.buffers[1].len, "bin-chunk-padded")
     \cup T(o.status = "OK" /\ o.buffers = <<>>, "no-buffer")
     \cup T(o.status = "OK" /\ RefsOK(o) /\ \E p \in AllPrims(o) : ~Narrowest(o, p), "index-width-not-narrowest")
+    \* special IEEE values (Round 2): what was handed in, what was refused, what was stored and judged
+    \cup T(SrcNonFinite(src), "nonfinite-source")
+    \cup T(o.status = "FAIL" /\ SrcNonFinite(src), "nonfinite-refused")
+    \cup T(o.status = "OK" /\ SrcNonFinite(src), "nonfinite-written")
+    \cup UNION {StoredTags(a) : a \in {x \in Ran(o.accs) : IsFloat(x) /\ x.dec}}
 
 Init == l = 1
 
